@@ -39,8 +39,33 @@ def bv(v, bits):
     if isinstance(v, int):
         return z3.BitVecVal(v & mask(bits), bits)
     if v.size() != bits:
-        raise TypeError("width mismatch %d vs %d: %s" % (v.size(), bits, v))
+        r = _retype(v, bits)
+        if r is None:
+            raise TypeError("width mismatch %d vs %d: %s" % (v.size(), bits, v))
+        return r
     return v
+
+
+def _retype(v, bits):
+    """A tree of ite nodes over constants that was built from concrete Python ints whose Go width was not known at
+    the merge point (default width W) is rebuilt at the width the consumer needs. Every leaf must fit (as a signed or
+    unsigned value of `bits` bits); anything else is a genuine width error."""
+    if not z3._ctree(v):
+        return None
+    fw = v.size()
+
+    def go(t):
+        if t.op == 'bv':
+            x = t.p
+            sx = x - (1 << fw) if x >> (fw - 1) else x
+            if not (-(1 << (bits - 1)) <= sx < (1 << bits)):
+                raise OverflowError
+            return z3.BitVecVal(sx & mask(bits), bits)
+        return z3.If(t.args[0], go(t.args[1]), go(t.args[2]))
+    try:
+        return go(v)
+    except OverflowError:
+        return None
 
 
 def bl(v):
